@@ -189,7 +189,7 @@ def describe_diff(a, b):
     return "equal"
 
 
-MODES = ["separate", "separate", "inplace", "fileobj", "over-longer", "copy", "write-twice", "after-failed-write"]
+MODES = ["separate", "separate", "inplace", "fileobj", "over-longer", "copy", "write-twice", "after-failed-write", "over-twin"]
 
 
 def roundtrip(text_path, is_molecule, label, mode="separate"):
@@ -220,7 +220,30 @@ def roundtrip(text_path, is_molecule, label, mode="separate"):
             pass
     elif mode == "write-twice":                 # the same object written twice: both files carry everything
         lib("write", itp.write, env.fresh_path(".itp"))
+    stamp = None
+    if mode == "over-twin":
+        # the output path holds a file of exactly the size of the one to be written, differing in one character, that
+        # was read through the library before; the time stamps of the path are preserved across the rewrite
+        # (cp -p, rsync -t, coarse file-system clocks)
+        scratch = env.fresh_path(".itp")
+        lib("write", itp.write, scratch)
+        with open(scratch, "rb") as f:
+            twin = bytearray(f.read())
+        for i in range(len(twin) - 1, -1, -1):
+            if chr(twin[i]).isalnum() and twin[i] < 128:
+                twin[i] = ord("7") if twin[i] != ord("7") else ord("3")
+                break
+        with open(out1, "wb") as f:
+            f.write(bytes(twin))
+        try:
+            with env.quiet():
+                ItpFile(out1)
+        except Exception:      # noqa: BLE001   (the altered twin need not be a valid file)
+            pass
+        stamp = os.stat(out1)
     lib("write", itp.write, out1)
+    if stamp is not None:
+        os.utime(out1, ns=(stamp.st_atime_ns, stamp.st_mtime_ns))
     del itp
     with open(out1, encoding="utf-8") as f:
         written = f.read()
